@@ -11,7 +11,7 @@ import (
 // records are printed, with which archive id, instant and value, in which order.
 
 func vrtC18Setup() (*wt.Header, wt.Timestamp, string, int, wt.Timestamp) {
-	h := vrtCmdHeader(vrtCmdLayouts(), wt.Sum, 0.5)
+	h := vrtCmdHeader(vrtCmdLayoutsWide(), wt.Sum, 0.5)
 	now := vrtCmdInstant(h, "now")
 	vrtCmdAssumeClock(h, now)
 	vrt.SetClock(uint32(now))
